@@ -1,4 +1,4 @@
-import BobModel.Proofs.C06Trace
+import BobModel.Proofs.C06Deps1
 /-
 C06 — parallel builds are schedule independent and bounded.
 
@@ -190,9 +190,18 @@ theorem events_of_a_step {st' : Sched.St} {t : Nat} (h : stepTask P cfg st t = s
 
 /-! ### statements that are evaluated on every replayed and explored schedule but not (yet) proved -/
 
-/-- a workspace belongs to one variant (C16): a valid step's workspace is not shared with a step of another variant id -/
-def PathVid (P : Project) : Prop :=
-  ∀ s s', (P.info s).valid = true → (P.info s).path = (P.info s').path → (P.info s').vid = (P.info s).vid
+/-- under `PathVid` (a workspace belongs to one variant, C16; `Sched.PathVid`) `_wasAlreadyRun` never prunes an
+entry of the table and answers exactly "this step was run in this invocation"; the filter at the top of `_cook`
+leaves exactly the valid steps that have not been run. -/
+theorem wasrun_lookup_exact {wr : WasRun} (hpv : PathVid P) (hv : WrValid P wr) (s : Nat) (co : Bool) :
+    (wasAlreadyRun P wr s co).2 = wr ∧ ((wasAlreadyRun P wr s co).1 = true ↔ WasOk P wr s co) :=
+  wasAlreadyRun_spec hpv hv s co
+
+theorem cook_filter_exact {wr : WasRun} (hpv : PathVid P) (hv : WrValid P wr) (co : Bool) (steps : List Nat) :
+    (filterTodo P co steps wr).2 = wr ∧
+    (∀ d ∈ steps, (P.info d).valid = true → WasOk P wr d co ∨ d ∈ (filterTodo P co steps wr).1) ∧
+    (∀ d ∈ (filterTodo P co steps wr).1, d ∈ steps ∧ (P.info d).valid = true) :=
+  filterTodo_spec hpv hv co steps
 
 /-- **deps_first**: a script starts only after the scripts of all valid dependencies of its step ended successfully -/
 def deps_first_goal : Prop :=
